@@ -13,7 +13,7 @@ Vectors are `List α`; matrices are lists of rows.
 Kernel values are the *unmasked* closed forms (what `get_kernel_matrix` / `predict` evaluate); gradients carry
 the coincidence mask of each implementation:
   * L2, memory-light: distance `< eps`  ⇒ that center's term is 0        (`mask = dists >= eps`)
-  * product:          `Σ_d |Δ_d|^q < eps` ⇒ term 0                       (`dists >= eps` on the p-norm^q)
+  * product:          `(Σ_d |Δ_d|^q)^{1/q} < eps` ⇒ term 0               (`base_dists >= eps`, the q-norm itself)
   * Lpq:              `‖Δ‖_p < eps`      ⇒ term 0                       (`base_dists >= eps`)
   * sum-power:        `|Δ_d| < eps`      ⇒ coordinate `d` contributes 0  (`abs_diffs >= eps`)
 -/
@@ -140,11 +140,11 @@ def gradLight (P : Params α) (M : Transform α) (x z : List α) : List α :=
   let dist := sqrt (lightSq M x z)
   if dist < P.eps then mΔ.map (fun _ => 0) else mΔ.map (fun t => l2Factor P dist * t)
 
-/-- Product kernel: `k · (−q/L^q) · |Δ_d|^{q−1} sgn Δ_d`, 0 when `Σ|Δ|^q < eps`. -/
+/-- Product kernel: `k · (−q/L^q) · |Δ_d|^{q−1} sgn Δ_d`, 0 when `‖Δ‖_q < eps` (the mask is on the q-norm, as in the
+Lpq kernel — not on its q-th power). -/
 def gradProd (P : Params α) (u v : List α) : List α :=
   let Δ := vsub v u
-  let S := pSum P.q Δ
-  if S < P.eps then Δ.map (fun _ => 0)
+  if pNorm P.q Δ < P.eps then Δ.map (fun _ => 0)
   else Δ.map (fun t => kProd P u v * (-(P.q / rpow P.L P.q)) * sgnPow (P.q - 1) t)
 
 /-- Lpq kernel: `k · (−q/L^q) · D^{q−p} · |Δ_d|^{p−1} sgn Δ_d` with `D = ‖Δ‖_p`, 0 when `D < eps`. -/
